@@ -18,7 +18,7 @@ def simulate(a, g, W, charge, discharge, date_tz=None):
     return lev, blocks
 
 
-def check(a, g, W, charge, discharge, tol, date_tz=None):
+def check(a, g, W, charge, discharge, tol, date_tz=None, groups=None):
     """physical invariants of C05; returns list of (oracle, message)"""
     out = []
     size = float(a["size"])
@@ -47,14 +47,17 @@ def check(a, g, W, charge, discharge, tol, date_tz=None):
     md = a.get("max_store_duration")
     if md is not None:
         # a run of steps with non-zero end-of-step level may not last longer than md (sum of step lengths)
+        # (a storage on its own coarser grid: counted on ITS steps - groups of portfolio steps - with the level at their ends)
+        units = [[t] for t in W] if groups is None else [list(G) for G in groups if G]
         run = []
-        for t in list(W) + [None]:
-            if t is not None and lev[t] > tol:
-                run.append(t)
+        for G in units + [None]:
+            if G is not None and lev[G[-1]] > tol:
+                run.append(G)
             else:
-                if run and sum(g.dt[x] for x in run) > md + 1e-9:
+                dur = sum(g.dt[x] for G_ in run for x in G_)
+                if run and dur > md + 1e-9:
                     out.append(("duration", "level non-zero during steps %d..%d (%.3f time units) > max_store_duration %g"
-                                % (run[0], run[-1], sum(g.dt[x] for x in run), md)))
+                                % (run[0][0], run[-1][-1], dur, md)))
                     break
                 run = []
     return out, lev, blocks
